@@ -12,7 +12,8 @@ MonInit == [ sid |-> "", p |-> [policy |-> "none", thr |-> 0, intervalMs |-> 0, 
              calledPts |-> 0,      \* points of Write calls issued so far
              inflight |-> 0,       \* Write calls issued and not yet returned
              chunks |-> <<>>, snaps |-> <<>>, firstFlushCall |-> 0, faults |-> 0, quiesced |-> FALSE, bad |-> {},
-             stallUs |-> 0 ]       \* scheduling stalls recorded by the harness (stallWatch); they extend the interval bound
+             stallUs |-> 0,
+             faultOpen |-> FALSE, clearI |-> 0 ]   \* a transport fault not yet followed by the stream's resume; event index of the last resume       \* scheduling stalls recorded by the harness (stallWatch); they extend the interval bound
 MonReset(e) == [MonInit EXCEPT !.p = [policy |-> e.p.policy, thr |-> e.p.thr, intervalMs |-> e.p.intervalMs, seqMode |-> e.p.seqMode]]
 
 NPts(gs) == LET F[k \in 0..Len(gs)] == IF k = 0 THEN 0 ELSE F[k - 1] + Len(gs[k].pts) IN F[Len(gs)]
@@ -49,7 +50,8 @@ MonStep(m, e) ==
             [m EXCEPT !.chunks = Append(@, [seq |-> e.seq, gl |-> e.groups, i |-> e.i, t |-> e.t]),
                       !.bad = @ \cup (IF m.p.policy = "none" /\ m.firstFlushCall = 0 THEN {"NoneTransmitsEarly"} ELSE {})
                                 \cup (IF e.groups = <<>> THEN {"EmptyChunk"} ELSE {})]
-      [] e.ev = "Fault" \/ (e.ev = "BLinkDown" /\ e.cause = "script") -> [m EXCEPT !.faults = @ + 1]
+      [] e.ev = "Fault" \/ (e.ev = "BLinkDown" /\ e.cause = "script") -> [m EXCEPT !.faults = @ + 1, !.faultOpen = TRUE]
+      [] e.ev = "UpResumed" /\ e.sid = m.sid -> [m EXCEPT !.faultOpen = FALSE, !.clearI = e.i]
       [] e.ev = "Quiesced" -> [m EXCEPT !.quiesced = TRUE]
       [] e.ev = "Stall" -> [m EXCEPT !.stallUs = @ + e.ms * 1000]
       [] OTHER -> m
@@ -94,8 +96,11 @@ BarrierBroken(m) ==
             \E q \in RangeS(w.pts) : ~\E c \in RangeS(m.chunks) : c.seq <= f.lastSeq /\ \E k \in 1..Len(c.gl) : c.gl[k].id = w.id /\ q \in RangeS(c.gl[k].pts)
 \* (e) interval policy: a point is never held longer than one interval (plus slack: 250 ms and 50 %)
 IntervalLate(m) ==
-    m.p.policy \in {"interval", "intervalOrSize"} /\ m.quiesced /\ m.faults = 0 /\
-    \E w \in RangeS(m.hist) : w.op = "Write" /\ w.err = "" /\ \E q \in RangeS(w.pts) :
+    m.p.policy \in {"interval", "intervalOrSize"} /\ m.quiesced /\
+    \* judged: every write of a fault-free scenario; after transport faults the writes issued after the stream's (last) resume -
+    \* the policy's promise does not end with the first connection
+    \E w \in RangeS(m.hist) : w.op = "Write" /\ w.err = "" /\ (m.faults = 0 \/ (~m.faultOpen /\ m.clearI > 0 /\ w.call > m.clearI)) /\
+      \E q \in RangeS(w.pts) :
         LET cs == { c \in RangeS(m.chunks) : \E k \in 1..Len(c.gl) : c.gl[k].id = w.id /\ q \in RangeS(c.gl[k].pts) }
         IN cs = {} \/ \A c \in cs : c.t - w.t > (m.p.intervalMs * 1000 * 3) \div 2 + 250000 + m.stallUs
 \* (g) no group without points unless a zero-point write put it there
